@@ -78,6 +78,7 @@ func gen(t *rapid.T) Case {
 	c.BaseMs = rapid.SampledFrom([]int64{0, 0, 250, 20_000, 3_599_000, 1_234_500}).Draw(t, "base")
 	n := rapid.IntRange(1, 40).Draw(t, "n")
 	period := map[int]int64{} // generator's view of what is scheduled
+	blocking := map[int]bool{} // ids whose executor behaviour is "block"
 	ids := func() []int {
 		var l []int
 		for id := range period {
@@ -109,7 +110,7 @@ func gen(t *rapid.T) Case {
 	for i := 0; i < n; i++ {
 		k := 0
 		if len(period) > 0 {
-			k = rapid.SampledFrom([]int{0, 0, 1, 1, 2, 2, 3, 3, 3, 3, 3, 3, 3, 3, 4, 4, 4, 5, 5, 5}).Draw(t, "kind")
+			k = rapid.SampledFrom([]int{0, 0, 1, 1, 2, 2, 3, 3, 3, 3, 3, 3, 3, 3, 4, 4, 4, 4, 5, 5, 5, 5}).Draw(t, "kind")
 		}
 		switch k {
 		case 0:
@@ -155,11 +156,24 @@ func gen(t *rapid.T) Case {
 			}
 			c.Ops = append(c.Ops, Op{K: "adv", D: d})
 		case 4:
-			c.Ops = append(c.Ops, Op{K: "behave", ID: rapid.SampledFrom(ids()).Draw(t, "id"),
-				B: rapid.SampledFrom([]string{"block", "block", "block", "ok", "err", "panic"}).Draw(t, "b")})
+			o := Op{K: "behave", ID: rapid.SampledFrom(ids()).Draw(t, "id"),
+				B: rapid.SampledFrom([]string{"block", "block", "block", "ok", "err", "panic"}).Draw(t, "b")}
+			blocking[o.ID] = o.B == "block"
+			c.Ops = append(c.Ops, o)
 		case 5:
 			id := 0
-			if rapid.IntRange(0, 3).Draw(t, "one") > 0 {
+			var bl []int
+			for b, on := range blocking {
+				if on {
+					bl = append(bl, b)
+				}
+			}
+			sort.Ints(bl)
+			switch k := rapid.IntRange(0, 5).Draw(t, "one"); {
+			case k == 0:
+			case k <= 3 && len(bl) > 0:
+				id = rapid.SampledFrom(bl).Draw(t, "id")
+			default:
 				id = rapid.IntRange(1, maxID).Draw(t, "id")
 			}
 			c.Ops = append(c.Ops, Op{K: "unblock", ID: id})
@@ -240,7 +254,12 @@ func (w *world) log(f string, a ...any) {
 	}
 }
 
-func rel(s int64) string { return fmt.Sprintf("%+ds", s-baseUnix) }
+func rel(s int64) string {
+	if s == 0 {
+		return "none"
+	}
+	return fmt.Sprintf("%+ds", s-baseUnix)
+}
 
 // workerOf: "Distribution is handled by hashing the TaskID ... all tasks of the same ID go to
 // the same worker" (TreeScheduler doc comment). Used to decide what the harness waits for and
